@@ -80,6 +80,11 @@ def _same(a, b):
     return a.shape == b.shape and np.array_equal(a, b, equal_nan=True)
 
 
+def _close(a, b, rtol=1e-13):
+    """Derived quantities (node positions, rescaled profiles, time over tau): equal up to a few ulp, however formed."""
+    return a.shape == b.shape and np.allclose(a, b, rtol=rtol, atol=0.0, equal_nan=True)
+
+
 def check_case(case) -> Result:
     import matplotlib
 
@@ -158,12 +163,12 @@ def check_case(case) -> Result:
                 xs = np.linspace(1 / nx, 1, nx)
                 pinit = m[0, -1]
                 for (x, y), i in zip(ls, idx):
-                    if not _same(x, xs):
+                    if not _close(x, xs):
                         res.bad("C20/profile-against-node-position", f"x data of profile {i} is not linspace(1/nx, 1, nx)")
                         break
                     with np.errstate(all="ignore"):
                         want = (m[i] - m[i, 0]) / (pinit - m[i, 0]) if case["rescale"] else m[i]
-                    if not _same(y, want):
+                    if not (_close(y, want, 1e-12) if case["rescale"] else _same(y, want)):
                         k = int(np.nanargmax(np.abs(y - want))) if np.any(np.isfinite(y - want)) else 0
                         res.bad("C20/profile-carries-simulated-data", f"profile {i} (rescale={case['rescale']}): y[{k}]={y[k]!r}, simulated {want[k]!r}")
                         break
@@ -246,7 +251,14 @@ def check_case(case) -> Result:
         params.add("tau", value=case["tau"])
         params.add("M", value=case["M"])
         params.add("p_initial", value=p_i)
-        fig, (ax1, ax2) = lib("plot_production_comparison", plot_production_comparison, prod, pvt, params, filter_window_size=case["window"], filter_zero_prod_days=case["filter"])
+        from bluebonnet.forecast import forecast_pressure as FP
+
+        from vf.props import c18
+
+        c18._NX["observed"] = None
+        fig, (ax1, ax2) = lib("plot_production_comparison", c18.observe_nx, FP, lambda: plot_production_comparison(prod, pvt, params, filter_window_size=case["window"], filter_zero_prod_days=case["filter"]))
+        # the figure's own simulation: 80 nodes (anchored), a finer model is accepted (see C18)
+        nx_fig = c18._NX["observed"] if c18._NX["observed"] and c18._NX["observed"] >= c18.NX_ANCHORED else c18.NX_ANCHORED
         keep = (gas > 0) & ~np.isnan(pres) if case["filter"] else np.ones(n, bool)
         tt = (np.arange(int(keep.sum()), dtype=float) if case["filter"] else days) / case["tau"]
         pfk = pres[keep]
@@ -255,7 +267,7 @@ def check_case(case) -> Result:
 
             pfk = scipy.ndimage.uniform_filter1d(pfk, size=case["window"])
         cum = np.cumsum(gas[keep])
-        sim = SinglePhaseReservoir(80, pfk, p_i, FlowProperties(pvt, p_i))
+        sim = SinglePhaseReservoir(nx_fig, pfk, p_i, FlowProperties(pvt, p_i))
         sim.simulate(tt, pressure_fracface=pfk)
         rf = np.asarray(sim.recovery_factor(), float)
         l1, l2 = _lines(ax1), _lines(ax2)
@@ -263,10 +275,10 @@ def check_case(case) -> Result:
             res.bad("C20/comparison-figure", f"comparison figure has {len(l1)} + {len(l2)} lines, expected 2 + 1")
             return res
         for name, (x, y), want in (("simulated recovery", l1[0], rf), ("cumulative production over M", l1[1], cum / case["M"]), ("frac-face pressure", l2[0], pfk)):
-            if not _same(x, tt):
+            if not _close(x, tt):
                 res.bad("C20/comparison-figure", f"{name}: x data is not time over tau")
                 break
-            if y.shape != want.shape or not np.allclose(y, want, rtol=1e-12, atol=0):
+            if y.shape != want.shape or not np.allclose(y, want, rtol=1e-10, atol=1e-13):
                 res.bad("C20/comparison-figure", f"{name}: y data differs from the expected series (max diff {float(np.max(np.abs(y - want))) if y.shape == want.shape else 'shape'})")
                 break
         res.nontrivial = True
